@@ -364,7 +364,21 @@ type c11M struct {
 	// inside it (its metadata parameter, its loop over that parameter)
 	xcall *ssa.Call
 	xm    *c11M
-	annS  []*ssa.Store // stores into D.Annotations
+	annS  []*ssa.Store // stores into the Annotations of D or of a further local copy of it
+	// by-value form: the descriptor may be copied on into further local variables (`out := desc; out.Annotations = …;
+	// return out`). Each of them is an object of the same kind as D: given the descriptor by one whole-value store, no
+	// field but Annotations written, address kept local (c11M.scanObject).
+	dInit *ssa.Store                 // the store that gives D the parameter's value, when D is a local variable
+	cells map[ssa.Value]*c11Cell     // the further copies, by their Alloc
+	annOf map[ssa.Value][]*ssa.Store // stores into the Annotations field, per object
+}
+
+// c11Cell: a local variable that is given the descriptor handed in by one whole-value store: of the parameter itself
+// (parent nil) or of a load of D / of another such variable (parent).
+type c11Cell struct {
+	al     *ssa.Alloc
+	copy   *ssa.Store
+	parent ssa.Value
 }
 
 // c11PureCopyLoop: the loop's body is one block that stores this iteration's key and value into a map and goes back
@@ -412,11 +426,18 @@ func c11MergeRoles(w *World, M *ssa.Function) (*c11M, string) {
 		return nil, "parameters not recognised"
 	}
 	m.D = m.dPar
+	m.cells, m.annOf = map[ssa.Value]*c11Cell{}, map[ssa.Value][]*ssa.Store{}
+	var work []ssa.Value
 	if !m.ptr {
 		for _, r := range *m.dPar.Referrers() {
 			if st, ok := r.(*ssa.Store); ok && st.Val == ssa.Value(m.dPar) {
 				if al, ok := st.Addr.(*ssa.Alloc); ok {
-					m.D = al
+					if m.dInit == nil {
+						m.D, m.dInit = al, st
+					} else if m.cells[al] == nil && ssa.Value(al) != m.D {
+						m.cells[al] = &c11Cell{al: al, copy: st}
+						work = append(work, al)
+					}
 				}
 			}
 		}
@@ -447,53 +468,169 @@ func c11MergeRoles(w *World, M *ssa.Function) (*c11M, string) {
 			m.add, m.loop = m.loop, nil
 		}
 	}
-	// what happens to the descriptor object
-	if refs := m.D.Referrers(); refs != nil {
-		for _, r := range *refs {
-			switch x := r.(type) {
-			case *ssa.FieldAddr:
-				if x.X != m.D {
-					continue
-				}
-				isAnn := fieldName(x.X.Type(), x.Field) == "Annotations"
-				for _, rr := range *x.Referrers() {
-					switch y := rr.(type) {
-					case *ssa.Store:
-						if y.Addr != ssa.Value(x) || !isAnn {
-							return nil, "the merge writes the " + fieldName(x.X.Type(), x.Field) + " field of the descriptor"
-						}
-						m.annS = append(m.annS, y)
-					case *ssa.UnOp, *ssa.DebugRef:
-					default:
-						return nil, "a field address of the descriptor escapes"
-					}
-				}
-			case *ssa.Store:
-				if x.Addr == m.D && x.Val != ssa.Value(m.dPar) {
-					return nil, "the descriptor is overwritten as a whole"
-				}
-				if x.Val == m.D && m.ptr {
-					return nil, "the descriptor pointer is stored"
-				}
-			case *ssa.UnOp, *ssa.DebugRef, *ssa.Field:
-			case *ssa.MakeInterface:
-				for _, rr := range *x.Referrers() {
-					if !onlyFormatted(rr, 0) {
-						return nil, "the descriptor escapes"
-					}
-				}
-			default:
-				return nil, "the descriptor escapes"
-			}
+	// what happens to the descriptor object and to the local copies made of it
+	work = append([]ssa.Value{m.D}, work...)
+	for len(work) > 0 {
+		O := work[0]
+		work = work[1:]
+		more, why := m.scanObject(O)
+		if why != "" {
+			return nil, why
 		}
+		work = append(work, more...)
 	}
 	return m, ""
 }
 
-// origAnn: v is the annotation map of the descriptor as handed in: a read of D.Annotations that no store into that
-// field can precede.
+// scanObject: what the merge does with one descriptor object O (D, or a local copy of it): reads, stores into its
+// Annotations field (recorded), the store that initialises it; in the by-value form a load of it may be stored whole
+// into another local variable of the same type, which becomes an object too (returned for scanning). Anything else —
+// another field written, a second whole-value store, the address leaving the function — is refused.
+func (m *c11M) scanObject(O ssa.Value) ([]ssa.Value, string) {
+	refs := O.Referrers()
+	if refs == nil {
+		return nil, ""
+	}
+	cell := m.cells[O]
+	var more []ssa.Value
+	for _, r := range *refs {
+		switch x := r.(type) {
+		case *ssa.FieldAddr:
+			if x.X != O {
+				continue
+			}
+			isAnn := fieldName(x.X.Type(), x.Field) == "Annotations"
+			for _, rr := range *x.Referrers() {
+				switch y := rr.(type) {
+				case *ssa.Store:
+					if y.Addr != ssa.Value(x) || !isAnn {
+						return nil, "the merge writes the " + fieldName(x.X.Type(), x.Field) + " field of the descriptor"
+					}
+					m.annS = append(m.annS, y)
+					m.annOf[O] = append(m.annOf[O], y)
+				case *ssa.UnOp, *ssa.DebugRef:
+				default:
+					return nil, "a field address of the descriptor escapes"
+				}
+			}
+		case *ssa.Store:
+			if x.Addr == O {
+				if cell != nil && x != cell.copy {
+					return nil, "a copy of the descriptor is overwritten as a whole"
+				}
+				if cell == nil && x.Val != ssa.Value(m.dPar) {
+					return nil, "the descriptor is overwritten as a whole"
+				}
+			}
+			if x.Val == O && (m.ptr || cell != nil) {
+				return nil, "the descriptor pointer is stored"
+			}
+		case *ssa.UnOp:
+			if m.ptr || x.Op != token.MUL || x.Referrers() == nil {
+				continue
+			}
+			for _, rr := range *x.Referrers() {
+				st, ok := rr.(*ssa.Store)
+				if !ok || st.Val != ssa.Value(x) {
+					continue
+				}
+				al, ok := st.Addr.(*ssa.Alloc)
+				if !ok || ssa.Value(al) == O || ssa.Value(al) == m.D || namedOf(al.Type()) != "ocispec.Descriptor" {
+					continue
+				}
+				if c := m.cells[al]; c != nil {
+					if c.copy != st {
+						return nil, "a copy of the descriptor is overwritten as a whole"
+					}
+					continue
+				}
+				m.cells[al] = &c11Cell{al: al, copy: st, parent: O}
+				more = append(more, al)
+			}
+		case *ssa.DebugRef, *ssa.Field:
+		case *ssa.MakeInterface:
+			for _, rr := range *x.Referrers() {
+				if !onlyFormatted(rr, 0) {
+					return nil, "the descriptor escapes"
+				}
+			}
+		default:
+			return nil, "the descriptor escapes"
+		}
+	}
+	return more, ""
+}
+
+// isObject: O is D or one of the local copies of it.
+func (m *c11M) isObject(O ssa.Value) bool { return O == m.D || m.cells[O] != nil }
+
+// holdsDescriptor: when `at` reads the object O it holds the descriptor handed in, but for its Annotations: the store
+// that initialises it precedes `at` on every path (before it, a local variable is the zero descriptor), and the same
+// holds for the object it was copied from at the time of the copy. No other field is ever written (scanObject).
+func (m *c11M) holdsDescriptor(O ssa.Value, at ssa.Instruction) bool {
+	for i := 0; i < 8; i++ {
+		c := m.cells[O]
+		if c == nil {
+			return O == m.D && (m.dInit == nil || c11Before(m.dInit, at))
+		}
+		if !c11Before(c.copy, at) {
+			return false
+		}
+		if c.parent == nil {
+			return true
+		}
+		O, at = c.parent, c.copy
+	}
+	return false
+}
+
+// pristine: when `at` reads the object O, its Annotations are still the map handed in: O holds the descriptor
+// (holdsDescriptor) and no store into the Annotations of O can precede `at` — nor, for a copy, could one into the
+// Annotations of the object it was copied from precede the copy.
+func (m *c11M) pristine(O ssa.Value, at ssa.Instruction) bool {
+	if !m.holdsDescriptor(O, at) {
+		return false
+	}
+	for i := 0; i < 8; i++ {
+		for _, s := range m.annOf[O] {
+			if c11MayPrecede(m.fi, s, at) {
+				return false
+			}
+		}
+		c := m.cells[O]
+		if c == nil || c.parent == nil {
+			return true
+		}
+		O, at = c.parent, c.copy
+	}
+	return false
+}
+
+// replacements: the stores into an Annotations field whose effect the object O carries whenever a later read of O is
+// dominated by O's initialising store: those into O itself that the initialising copy cannot follow (it would
+// overwrite them), and those into the object O was copied from that the copy cannot precede (whenever both run, the
+// store runs first and the copy takes its effect along).
+func (m *c11M) replacements(O ssa.Value) []*ssa.Store {
+	var out []*ssa.Store
+	c := m.cells[O]
+	for _, s := range m.annOf[O] {
+		if c == nil || !c11MayPrecede(m.fi, s, c.copy) {
+			out = append(out, s)
+		}
+	}
+	if c != nil && c.parent != nil {
+		for _, s := range m.replacements(c.parent) {
+			if !c11MayPrecede(m.fi, c.copy, s) {
+				out = append(out, s)
+			}
+		}
+	}
+	return out
+}
+
+// origAnn: v is the annotation map of the descriptor as handed in: a read of the Annotations of D — or of a local copy
+// of it — that no store into that field can precede (c11M.pristine).
 func (m *c11M) origAnn(v ssa.Value) bool {
-	var at ssa.Instruction
 	switch x := v.(type) {
 	case *ssa.Field:
 		return x.X == ssa.Value(m.dPar) && !m.ptr && fieldName(x.X.Type(), x.Field) == "Annotations"
@@ -502,19 +639,13 @@ func (m *c11M) origAnn(v ssa.Value) bool {
 			return false
 		}
 		fa, ok := x.X.(*ssa.FieldAddr)
-		if !ok || fa.X != m.D || fieldName(fa.X.Type(), fa.Field) != "Annotations" {
+		if !ok || !m.isObject(fa.X) || fieldName(fa.X.Type(), fa.Field) != "Annotations" {
 			return false
 		}
-		at = x
+		return m.pristine(fa.X, x)
 	default:
 		return false
 	}
-	for _, s := range m.annS {
-		if c11MayPrecede(m.fi, s, at) {
-			return false
-		}
-	}
-	return true
 }
 
 // iterPart: v is the key (idx 1) or the value (idx 2) of the current pair of the metadata loop: the Next's component,
@@ -781,6 +912,7 @@ type c11Union struct {
 	copyCall      *ssa.Call  // maps.Copy(U, annotations handed in)
 	copyLoop      *rangeLoop // for k, v := range annotations handed in { U[k] = v }
 	bulk, perPair bool
+	cloned        bool // U is a fresh copy of the annotations handed in from its very definition (c11Copy)
 }
 
 func (m *c11M) afterExhaustion(in ssa.Instruction) bool {
@@ -869,7 +1001,15 @@ func (m *c11M) union() *c11Union {
 		u.U = s.Val
 	}
 	if _, isMake := u.U.(*ssa.MakeMap); !isMake {
-		u.fresh = false
+		// not made here and filled afterwards, but born as a copy: maps.Clone of the annotations handed in with the nil
+		// case replaced by a fresh empty map, inline or in a helper (c11Copy). That is the one copy of the annotations.
+		cc := &c11Copy{w: m.w, fn: m.M, fi: m.fi, isSrc: m.origAnn}
+		if u.U != nil && cc.kind(u.U) == c11CopyFull {
+			u.copies++
+			u.cloned = true
+		} else {
+			u.fresh = false
+		}
 	}
 	U, M := u.U, m.M
 	dominates := func(in ssa.Instruction) bool {
@@ -953,12 +1093,256 @@ func (m *c11M) union() *c11Union {
 	return u
 }
 
+// ---- a map born as a copy ------------------------------------------------------------------------
+//
+// c11Copy decides, in the frame of one function, whether a map value is a fresh, non-nil map that holds every pair of
+// the source map (role isSrc: the annotations handed in) from its definition on — the standard-library spelling of
+// `m := make(…); for k, v := range src { m[k] = v }`. Three kinds of value:
+//
+//	empty  a map made here (make / composite literal): fresh, non-nil, holds nothing;
+//	clone  maps.Clone(src): fresh, holds exactly the pairs of src — and is nil iff src is nil (package maps: "Clone
+//	       returns a copy of m … if m is nil, Clone returns nil");
+//	full   fresh, non-nil, holds at least the pairs of src.
+//
+// A clone is full where it is known not to be nil, an empty map is full where the source is known to have no pairs
+// (nothing is missing from it). "Known" is a path fact: the value arrives — over one edge of a phi, or at a return —
+// only over branch edges on which an emptiness test of the source or of a clone of it (`x == nil`, `len(x) == 0` and
+// their negations; a clone is nil / empty exactly when the source is) came out the right way. So
+// `c := maps.Clone(src); if c == nil { c = make(…) }`, `if src == nil { c = make(…) } else { c = maps.Clone(src) }`,
+// `if len(c) == 0 { c = map[string]string{} }` are full; a bare maps.Clone (nil for an artifact without annotations:
+// the first pair taken over panics) and a make on a path where the source may hold pairs (they would be dropped) are not.
+// A module helper handed the source is full when each of its returns is, in its own frame, the parameter playing the source.
+type c11Copy struct {
+	w     *World
+	fn    *ssa.Function
+	fi    *FnInfo
+	isSrc func(v ssa.Value) bool
+	depth int
+	busy  map[ssa.Value]bool
+}
+
+const (
+	c11CopyNone = iota
+	c11CopyEmpty
+	c11CopyClone
+	c11CopyFull
+)
+
+// cloneOfSrc: v is maps.Clone(source).
+func (cc *c11Copy) cloneOfSrc(v ssa.Value) bool {
+	call, ok := v.(*ssa.Call)
+	return ok && calleeName(call) == "maps.Clone" && len(call.Call.Args) == 1 && cc.isSrc(call.Call.Args[0])
+}
+
+// emptiness: the branch edges on which the source is known to be empty (want) resp. to be non-nil (!want).
+func (cc *c11Copy) emptiness(want bool) map[edgeKey]bool {
+	tested := func(v ssa.Value) bool { return cc.isSrc(v) || cc.cloneOfSrc(v) }
+	return cc.fi.edgesMatching(func(_ string, iff *ssa.If, truth bool) bool {
+		bo, ok := stripNot(iff.Cond, &truth).(*ssa.BinOp)
+		if !ok {
+			return false
+		}
+		x, y, op := bo.X, bo.Y, bo.Op
+		if _, isK := x.(*ssa.Const); isK { // constant on the left: mirror
+			x, y = y, x
+			switch op {
+			case token.LSS:
+				op = token.GTR
+			case token.GTR:
+				op = token.LSS
+			case token.LEQ:
+				op = token.GEQ
+			case token.GEQ:
+				op = token.LEQ
+			}
+		}
+		if !truth {
+			op = negOp(op)
+		}
+		// x == nil / x != nil
+		if isNilConst(y) && tested(x) {
+			return (op == token.EQL && want) || (op == token.NEQ && !want)
+		}
+		// len(x) == 0, len(x) <= 0, len(x) < 1 / len(x) != 0, len(x) > 0, len(x) >= 1
+		call, ok := x.(*ssa.Call)
+		if !ok || len(call.Call.Args) != 1 || !tested(call.Call.Args[0]) {
+			return false
+		}
+		if bi, ok := call.Call.Value.(*ssa.Builtin); !ok || bi.Name() != "len" {
+			return false
+		}
+		n, isK := c11IntConst(y)
+		if !isK {
+			return false
+		}
+		empty := (op == token.EQL && n == 0) || (op == token.LEQ && n == 0) || (op == token.LSS && n == 1)
+		some := (op == token.NEQ && n == 0) || (op == token.GTR && n == 0) || (op == token.GEQ && n == 1)
+		return (want && empty) || (!want && some)
+	})
+}
+
+// arrives: block b can be reached from the entry without passing an edge of cut.
+func (cc *c11Copy) arrives(b *ssa.BasicBlock, cut map[edgeKey]bool) bool {
+	return b.Index == 0 || cc.fi.reachHit(entryState(), cut, map[int]bool{b.Index: true})
+}
+
+// fullWhere: v is full wherever it arrives; reach(cut) says whether it can arrive without passing an edge of cut.
+func (cc *c11Copy) fullWhere(v ssa.Value, reach func(cut map[edgeKey]bool) bool) bool {
+	switch cc.kind(v) {
+	case c11CopyFull:
+		return true
+	case c11CopyClone:
+		cut := cc.emptiness(false)
+		return len(cut) > 0 && !reach(cut)
+	case c11CopyEmpty:
+		cut := cc.emptiness(true)
+		return len(cut) > 0 && !reach(cut)
+	}
+	return false
+}
+
+func (cc *c11Copy) kind(v ssa.Value) int {
+	if v == nil || cc.busy[v] {
+		return c11CopyNone
+	}
+	if cc.busy == nil {
+		cc.busy = map[ssa.Value]bool{}
+	}
+	cc.busy[v] = true
+	defer delete(cc.busy, v)
+	switch x := v.(type) {
+	case *ssa.MakeMap:
+		return cc.made(x)
+	case *ssa.Phi:
+		b := x.Block()
+		for i, e := range x.Edges {
+			p := b.Preds[i]
+			over := func(cut map[edgeKey]bool) bool {
+				if !cc.arrives(p, cut) {
+					return false
+				}
+				for j, s := range p.Succs {
+					if s == b && !cut[edgeKey{p.Index, j}] {
+						return true
+					}
+				}
+				return false
+			}
+			if !cc.fullWhere(e, over) {
+				return c11CopyNone
+			}
+		}
+		if len(x.Edges) > 0 {
+			return c11CopyFull
+		}
+	case *ssa.Call:
+		if cc.cloneOfSrc(x) {
+			return c11CopyClone
+		}
+		return cc.helper(x, 0)
+	case *ssa.Extract:
+		if call, ok := x.Tuple.(*ssa.Call); ok {
+			return cc.helper(call, x.Index)
+		}
+	}
+	return c11CopyNone
+}
+
+// made: a map made here. Handed on untouched (only phis and returns see it) it is empty. It is full when the one thing
+// done to it is a pure copy loop over the source (`for k, v := range src { m[k] = v }`, c11PureCopyLoop: one block, cannot
+// be left early) and it is only returned, at places the loop's exhaustion block dominates — the hand-written maps.Clone
+// of a helper. Any other use (another store, a call receiving it) is not followed.
+func (cc *c11Copy) made(mk *ssa.MakeMap) int {
+	refs := mk.Referrers()
+	if refs == nil {
+		return c11CopyNone
+	}
+	var loop *rangeLoop
+	var rets []*ssa.Return
+	phis := 0
+	for _, r := range *refs {
+		switch y := r.(type) {
+		case *ssa.DebugRef:
+		case *ssa.Phi:
+			phis++
+		case *ssa.Return:
+			rets = append(rets, y)
+		case *ssa.MapUpdate:
+			if y.Map != ssa.Value(mk) || loop != nil {
+				return c11CopyNone
+			}
+			for _, rl := range rangeLoops(cc.fn) {
+				rl := rl
+				if cc.isSrc(rl.X) && c11PureCopyLoop(&rl) == y {
+					loop = &rl
+				}
+			}
+			if loop == nil {
+				return c11CopyNone
+			}
+		default:
+			return c11CopyNone
+		}
+	}
+	if loop == nil {
+		return c11CopyEmpty
+	}
+	if phis > 0 || len(rets) == 0 {
+		return c11CopyNone
+	}
+	for _, r := range rets {
+		if loop.Exit != r.Block() && !loop.Exit.Dominates(r.Block()) {
+			return c11CopyNone
+		}
+	}
+	return c11CopyFull
+}
+
+// helper: result k of a module function that was handed the source: full when every return delivers, as result k, a
+// value that is full where that return is reached, in the callee's frame (the parameter plays the source; the
+// ownership rule sees to it that nobody on the call tree writes into it).
+func (cc *c11Copy) helper(call *ssa.Call, k int) int {
+	g := staticCallee(call)
+	if g == nil || g.Blocks == nil || !cc.w.IsProductFn(g) || cc.depth >= 3 || g == cc.fn {
+		return c11CopyNone
+	}
+	src := map[ssa.Value]bool{}
+	for i, a := range call.Call.Args {
+		if i < len(g.Params) && cc.isSrc(a) {
+			src[g.Params[i]] = true
+		}
+	}
+	if len(src) == 0 {
+		return c11CopyNone
+	}
+	sub := &c11Copy{w: cc.w, fn: g, fi: cc.w.Info(g), isSrc: func(v ssa.Value) bool { return src[v] }, depth: cc.depth + 1}
+	n := 0
+	for _, b := range g.Blocks {
+		r, ok := blockTerm(b).(*ssa.Return)
+		if !ok {
+			continue
+		}
+		b := b
+		if k >= len(r.Results) || !sub.fullWhere(r.Results[k], func(cut map[edgeKey]bool) bool { return sub.arrives(b, cut) }) {
+			return c11CopyNone
+		}
+		n++
+	}
+	if n == 0 {
+		return c11CopyNone
+	}
+	return c11CopyFull
+}
+
 // holdsAnnotations: when `at` runs, U holds at least every annotation handed in: the copy of them into U is complete
 // (the maps.Copy call precedes `at`; the pure copy loop's exhaustion block dominates it) and nothing is ever removed
 // from a map in this function.
 func (u *c11Union) holdsAnnotations(v ssa.Value, at ssa.Instruction) bool {
 	if u.U == nil || v != u.U || !u.noDelete || at == nil {
 		return false
+	}
+	if u.cloned {
+		return true // U holds them from its definition on, which precedes every use of the value
 	}
 	if u.copyCall != nil && at.Parent() == u.copyCall.Parent() && c11Before(u.copyCall, at) {
 		return true
@@ -987,15 +1371,10 @@ func (m *c11M) frame(u *c11Union) *c11Frame {
 			return true
 		}
 		ld, ok := v.(*ssa.UnOp)
-		if !ok || ld.Op != token.MUL || ld.X != m.D {
+		if !ok || ld.Op != token.MUL || !m.isObject(ld.X) {
 			return false
 		}
-		for _, s := range m.annS {
-			if c11MayPrecede(m.fi, s, ld) {
-				return false
-			}
-		}
-		return true
+		return m.pristine(ld.X, ld)
 	}
 	fr.deriv["ann"] = func(fr *c11Frame, v ssa.Value, _ ssa.Instruction) bool {
 		switch x := v.(type) {
